@@ -403,6 +403,18 @@ func (it *Interp) loadSym(p *Ptr) Value {
 		panic(unsupported("symbolic-index load on non-array"))
 	}
 	ts := it.ts
+	if r := it.mapConstLeaves(p.sym, 0, func(c uint64) *Term {
+		if c >= uint64(p.symN) {
+			return nil
+		}
+		t, ok := arr.e[p.symOff+int(c)].(*Term)
+		if !ok || t.op == OpNum {
+			return nil
+		}
+		return t
+	}); r != nil {
+		return it.identityChain(r)
+	}
 	// group indices by value
 	type grp struct {
 		val  *Term
